@@ -105,6 +105,19 @@ def finish(prop, tier, REG, results, lemma_results, wall, write_evidence=True):
                 n_dis += 1
             continue
         k = match_known(known, prop, a)
+        # Optional policy (PYVC_SCAFFOLD_UNKNOWN=undecided; default off): proof scaffolding (loop invariants) that the solver
+        # can neither prove nor refute -- `unknown`, no counter-model -- means the *proof* no longer goes through, which is not
+        # the same as the property being violated; with the switch on such obligations make the check undecided (exit 2).
+        # Default: every obligation that was discharged on the unchanged tree and is not any more is reported as a violation
+        # (`no-failing-input-found`), as the interface asks.  Measured on the seeded changes and on ten behaviour-preserving
+        # refactorings (DESIGN.md section 10): the switch removes 1 of 1 remaining false alarms and loses 6 of 58 detections.
+        scaffolding = "/inv-entry" in name or "/inv-preserved" in name      # cut-point assertions carry property-level claims: not scaffolding
+        if scaffolding and a["failed"] == 0 and a["unknown"] > 0 and k is None and a["mode"] != "bounded" \
+                and os.environ.get("PYVC_SCAFFOLD_UNKNOWN", "violation") == "undecided":
+            errors.append("%s: proof scaffolding not re-established (solver: unknown, no counter-model): %s" % (
+                name, str((a["witness"] or {}).get("detail", ""))[:160].replace("\n", " ")))
+            n_obl += 1
+            continue
         rp = os.path.join("replays", prop, safe(name) + ".json")
         w = a["witness"] or {}
         doc = {"property": prop, "obligation": name, "clause": a["where"], "function": a["key"],
